@@ -18,6 +18,7 @@ ANCHORS = [("shangrla/core/Audit.py",
              "CVR.prep_polling_sample", "Assertion.mvrs_to_data", "Assertion.set_p_values"])]
 EXN = ("IndexError", "TypeError", "KeyError", "AssertionError", "ValueError", "NotImplementedError")
 BIG = 2 ** 200
+NEAR = 2 ** 255      # 2**255 + k == 2**255 as a double for every k < 2**202
 
 
 def A():
@@ -190,8 +191,19 @@ def gen_spec(rng, n=None, m=None, ties=False, nums=None, styles=None, plain=Fals
         if ties:
             nums = [rng.randint(1, max(2, n // 2)) for _ in range(n)]
         else:
-            scale = rng.choice([1, 1, 1, BIG])
-            nums = [v * scale + (rng.randint(0, 9) if scale > 1 else 0) for v in rng.sample(range(0, 4 * n + 4), n)]
+            mode = rng.choice(["small", "small", "big", "near", "near_rev", "mixed"])
+            vals = rng.sample(range(0, 4 * n + 4), n)
+            if mode == "small":
+                nums = vals
+            elif mode == "big":
+                nums = [v * BIG + rng.randint(0, 9) for v in vals]
+            elif mode == "near":       # distinct 256-bit integers that coincide once converted to a double
+                nums = [NEAR + v for v in vals]
+            elif mode == "near_rev":   # ... listed in the opposite order to their true order
+                nums = [NEAR + v for v in sorted(vals, reverse=True)]
+            else:                      # clusters of near-collisions among ordinary 256-bit numbers
+                bases = [rng.randint(1, 5) * BIG * 2 ** 40 for _ in range(3)]
+                nums = [rng.choice(bases) + v for v in vals]
     ck = "str" if plain else rng.choice(["str", "str", "int", "tuple"])
     ik = "dominion" if plain else rng.choice(ID_STYLES)
     order = list(range(m))
@@ -341,6 +353,8 @@ def exhaustive_cases(rng, nmax, all_orders_upto, cont_all=False, stats=None):
             styles = [[c for c in (0, 1) if (b >> c) & 1] for b in pat]
             for perm in (perms if perms is not None else [None]):
                 nums = [3 * p + 1 for p in perm] if perm is not None else [3 * p + 1 for p in rng.sample(range(n), n)]
+                if rng.random() < 0.35:
+                    nums = [NEAR + v for v in nums]       # same order, but indistinguishable as doubles
                 spec = gen_spec(rng, n=n, m=2, nums=nums, styles=styles, plain=True)
                 cvrs = mk_cvrs(spec, rng)
                 contests = mk_contests(spec)
@@ -601,9 +615,23 @@ def asn_cases(rng, ncases):
             spec1 = gen_spec(rng, n=n1)
             spec2 = gen_spec(rng, n=n2)
             l1, l2 = mk_cvrs(spec1, rng), mk_cvrs(spec2, rng)
+            for lst in (l1, l2):       # identifiers are not positions: repeated ids (un-merged rows), missing ids, ids shared across lists
+                kind = rng.choice(["distinct", "dups", "none", "rows", "allsame"])
+                for i, cv in enumerate(lst):
+                    if kind == "dups" and i and rng.random() < 0.5:
+                        cv.id = lst[rng.randrange(i)].id
+                    elif kind == "none" and rng.random() < 0.6:
+                        cv.id = None
+                    elif kind == "rows":
+                        cv.id = lst[i - i % 2].id          # two consecutive per-contest rows per card id
+                    elif kind == "allsame":
+                        cv.id = "same"
+            if l1 and l2 and rng.random() < 0.5:
+                l2[0].id = l1[-1].id
             r1 = Au.CVR.assign_sample_nums(l1, prng)
+            got1 = [int(c.sample_num) for c in l1]
             r2 = Au.CVR.assign_sample_nums(l2, prng)
-            outs.append(([int(c.sample_num) for c in l1], [int(c.sample_num) for c in l2], r1, r2))
+            outs.append((got1, [int(c.sample_num) for c in l2], r1, r2))
         cases.append({"seed": seed, "k0": k0, "n1": n1, "n2": n2, "stream": sha_stream(seed, k0 + n1 + n2 + 1),
                       "nums1": outs[0][0], "nums2": outs[0][1], "variant": (outs[1][0], outs[1][1]),
                       "ret": [outs[0][2], outs[0][3]]})
@@ -779,7 +807,7 @@ def corr_histories(ctx, res, stats, n_valid, n_invalid):
 def corr_small(ctx, res, stats, which=("asn", "m2d", "prep")):
     out = {}
     if "asn" in which:
-        cases = asn_cases(ctx.rng, ctx.n(40, 400))
+        cases = asn_cases(ctx.rng, ctx.n(120, 800))
         cr = C.run_corr(ctx.pid, "asn", IMPORTS, "list Z * nat * nat * nat * list Z * list Z", cases, asn_case_lit, "agree_asn", shard=100)
         res.corr.append(("CVR.assign_sample_nums vs Sampling.assign_sample_nums over the independently recomputed SHA-256 stream",
                          cr, asn_case_json))
